@@ -8,8 +8,6 @@ use std::{borrow::Cow, vec::Vec};
 ///
 /// The common practise is to use the function `to_lossy_string` to convert to a standard Rust
 /// String.
-use itertools::Itertools;
-
 use super::control::ControlCharacter;
 
 const DEFAULT_CODEPAGE: char = 'L';
@@ -23,6 +21,8 @@ trait Codepage {
     fn as_lfs_codepage(&self) -> Option<&'static encoding_rs::Encoding>;
     /// Should this codepage control character be propagated
     fn propagate_lfs_codepage(self) -> bool;
+    /// Is `byte` the first half of a double byte character in this codepage?
+    fn is_lfs_lead_byte(&self, byte: u8) -> bool;
 }
 
 impl Codepage for char {
@@ -35,6 +35,14 @@ impl Codepage for char {
 
     fn propagate_lfs_codepage(self) -> bool {
         self == '8'
+    }
+
+    fn is_lfs_lead_byte(&self, byte: u8) -> bool {
+        match self {
+            'J' => matches!(byte, 0x81..=0x9F | 0xE0..=0xFC),
+            'H' | 'S' | 'K' => matches!(byte, 0x81..=0xFE),
+            _ => false,
+        }
     }
 
     fn as_lfs_codepage(&self) -> Option<&'static encoding_rs::Encoding> {
@@ -65,6 +73,10 @@ impl Codepage for u8 {
 
     fn propagate_lfs_codepage(self) -> bool {
         (self as char).propagate_lfs_codepage()
+    }
+
+    fn is_lfs_lead_byte(&self, byte: u8) -> bool {
+        (*self as char).is_lfs_lead_byte(byte)
     }
 
     fn as_lfs_codepage(&self) -> Option<&'static encoding_rs::Encoding> {
@@ -159,11 +171,25 @@ pub fn to_lossy_string(input: &[u8]) -> Cow<str> {
     }
 
     // find the positions in the input for each ^L, ^B...
-    let mut indices: Vec<usize> = input
-        .iter()
-        .tuple_windows()
-        .positions(|(elem, next)| elem.is_lfs_control_char() && next.is_lfs_codepage())
-        .collect();
+    // Scan left to right so that neither an escaped caret (^^) nor the trail byte of a double
+    // byte character is mistaken for the start of a marker.
+    let mut indices: Vec<usize> = Vec::new();
+    let mut current = DEFAULT_CODEPAGE as u8;
+    let mut i = 0;
+    while i + 1 < input.len() {
+        let (elem, next) = (input[i], input[i + 1]);
+        if elem.is_lfs_control_char() && next.is_lfs_codepage() {
+            indices.push(i);
+            current = next;
+            i += 2;
+        } else if (elem.is_lfs_control_char() && next.is_lfs_control_char())
+            || current.is_lfs_lead_byte(elem)
+        {
+            i += 2;
+        } else {
+            i += 1;
+        }
+    }
 
     // allowing unwrap because if this panics we're screwed
     let default_lfs_codepage = DEFAULT_CODEPAGE
